@@ -888,6 +888,7 @@ class Sim(object):
         p = Proc(self, key, addr, inc)
         p.clock_off = self.rng.choice([0.0, 12345.0, -500.0, 777.25]) if self.cfg.get('clock_offsets', True) else 0.0
         p.born_step = self.step
+        p.born_time = CLK.now
         p.start_others = list(others)
         prev = self.procs.get(key)
         p.first_list = getattr(prev, 'first_list', None) if prev is not None else None
